@@ -540,3 +540,23 @@ func vInfixShape(op pAst.InfixOperator) int {
     loop 4 invariant forall k string in keys(labels) :: 0 <= labels[k] && labels[k] <= int64(len(fnOut))
     loop 4 invariant forall j in rangeindex()..len(fnOut) :: fnOut[j] != nil && fnOut[j].Opcode() != Opcode_Label
 @*/
+
+// ---------------------------------------------------------------------------
+// Slot assignment (C01 locals, C14 no dependence on map order): a variable
+// access is rewritten to a slot of the frame of the function it occurs in,
+// i.e. to a number below the count of variables first seen in that function.
+// The second pair of assertions does NOT hold for the code as it is: a name
+// already numbered while another function was processed (a function literal
+// reading a local of its enclosing function) keeps that other function's
+// number - see /verif/known_findings.json.
+
+/*@ func (self *Compiler) renameVariables
+    serves C01, C14
+    assume-safety
+    assert @new-variable-takes-next-slot before-each cnt++ :: slot[i.Value] == int64(cnt) && cnt >= 0
+    assert @read-slot-in-own-frame before module[name].Instructions[idx] = newOneIntInstruction(Opcode_GetVarImm, slot[i.Value]) :: 0 <= slot[i.Value] && slot[i.Value] < int64(cnt)
+    assert @write-slot-in-own-frame before module[name].Instructions[idx] = newOneIntInstruction(Opcode_SetVarImm, slot[i.Value]) :: 0 <= slot[i.Value] && slot[i.Value] < int64(cnt)
+    loop "range fn.Instructions" invariant cnt >= 0 && slot != nil
+    loop "range module" invariant slot != nil
+    loop "range self.modules" invariant slot != nil
+@*/
